@@ -103,7 +103,7 @@ Proof. exact (reparse_record renum64 renum64_tok). Qed.
     emits U+FFFD raw: the value changes and the first re-write is not byte-identical; it is stable afterwards.
     [utf8v] (every string and key is valid UTF-8) is therefore a premise of every theorem that goes through the decoder;
     the scanner theorem C02_scan_finds_object needs no such premise. *)
-Theorem C02_invalid_utf8_refuted :
+Theorem C02_invalid_utf8_not_preserved :
   exists o, wfv (JObj o) = true /\ canon (JObj o) = true /\ utf8v (JObj o) = false /\
     exists o', jdec renum64 (ser (JObj o)) = Some (JObj o') /\ o' <> o /\ ser (JObj o') <> ser (JObj o) /\
                jdec renum64 (ser (JObj o')) = Some (JObj o').
@@ -241,7 +241,7 @@ Print Assumptions C02_header_roundtrip_any_decoder.
 Print Assumptions C02_reparse_keeps_annotations.
 Print Assumptions C02_reparse_keeps_record.
 Print Assumptions C02_reparse_keeps_record_float64.
-Print Assumptions C02_invalid_utf8_refuted.
+Print Assumptions C02_invalid_utf8_not_preserved.
 Print Assumptions C02_int_tokens_fixed.
 Print Assumptions C02_small_ints_stable.
 Print Assumptions C02_int_bound_is_sharp.
